@@ -193,6 +193,15 @@ func runC35(c *Ctx) {
 		if !okRange {
 			return "the loop does not range over p.rank", false
 		}
+		// i < electedPRepCount for the loop's index i (range or counted form), established by a
+		// dominating guard or by the loop condition itself
+		if li, _, ok := indexLoop(h); ok {
+			target := Lin{T: map[string]int64{"$r.electedPRepCount": 1}}.add(linOf(li), -1)
+			target.K--
+			if wit, ok := impliedLin(guardsAt(in), target); ok {
+				return wit, true
+			}
+		}
 		for _, g := range guardsAt(in) {
 			p := predOf(g)
 			if p.Kind == "ge" && len(p.L.T) == 2 && p.L.T["$r.electedPRepCount"] == 1 && p.L.K == -2 {
